@@ -1038,12 +1038,7 @@ func c18R9(p *core.Prog, r *core.Report) {
 					continue
 				}
 				n++
-				dep := false
-				for _, ifi := range core.ControlDeps(in) {
-					if dependsOnField(ifi.Cond, modPath("cmd/regsync"), "ConfigDefaults", "Parallel") {
-						dep = true
-					}
-				}
+				dep := parallelGuarded(p, in, 0)
 				if lab[fn] == nil {
 					lab[fn] = labeler{}
 				}
@@ -1055,4 +1050,59 @@ func c18R9(p *core.Prog, r *core.Report) {
 	if n == 0 {
 		r.Held(rule, "cmd/regsync", "goroutine per entry", "", "no loop starts a goroutine per configured entry")
 	}
+}
+
+// parallelGuarded: the instruction is control-dependent on a test of the Parallel setting — written in
+// place, through a predicate method (`func (c ConfigDefaults) parallelEntries() bool`), or because
+// every call of the enclosing function is (the loop was split into a serial and a parallel function).
+func parallelGuarded(p *core.Prog, in ssa.Instruction, depth int) bool {
+	var onParallel func(v ssa.Value, d int) bool
+	onParallel = func(v ssa.Value, d int) bool {
+		if dependsOnField(v, modPath("cmd/regsync"), "ConfigDefaults", "Parallel") {
+			return true
+		}
+		v, _ = core.StripNot(v, true)
+		if ph, ok := v.(*ssa.Phi); ok && d < 3 {
+			for _, e := range ph.Edges {
+				if onParallel(e, d+1) {
+					return true
+				}
+			}
+		}
+		c, ok := v.(*ssa.Call)
+		if !ok || d > 2 {
+			return false
+		}
+		g := c.Call.StaticCallee()
+		if g == nil || !p.InModule(g) || len(g.Blocks) == 0 || len(g.Blocks) > 6 {
+			return false
+		}
+		for _, ret := range core.Returns(g) {
+			for _, rv := range ret.Results {
+				if onParallel(rv, d+1) {
+					return true
+				}
+			}
+		}
+		return false
+	}
+	for _, ifi := range core.ControlDeps(in) {
+		if onParallel(ifi.Cond, 0) {
+			return true
+		}
+	}
+	if depth >= 2 {
+		return false
+	}
+	fn := in.Parent()
+	callers := p.Callers(fn)
+	if len(callers) == 0 {
+		return false
+	}
+	for _, st := range callers {
+		if c, ok := st.Site.(ssa.CallInstruction); !ok || core.CalleeFn(c) != fn || !parallelGuarded(p, st.Site, depth+1) {
+			return false
+		}
+	}
+	return true
 }
